@@ -394,8 +394,12 @@ def run(tier, replay=None):
                        "mt": dec["kind"].endswith("_mt"), "obs": obs, "alloc_kib": kib(rr.get("peak", 0)), "in_kib": kib(inlen), "out_kib": kib(rr.get("n", 0))})
     d, mod, cfg = core.write_model("Trace_HostileFields", consts, spec="TSpec", invariants=("Track", "Judge"), postcondition="Accepted")
     tp = os.path.join(d, "trace.ndjson")
+    # binding demonstration: three synthetic observations the trace spec must judge bad (panic; 1 GiB for a 64 KiB case; an
+    # invalid dictionary property accepted) -- otherwise the judge does not discriminate
+    demo = [dict(events[0], obs="panic"), dict(events[0], alloc_kib=1 << 20),
+            {"fam": "xz_bh", "f1": "exact", "f2": "lzma2", "f3": "41", "f4": "absent", "f5": "ok", "mt": False, "obs": "ok", "alloc_kib": 1, "in_kib": 1, "out_kib": 1}]
     with open(tp, "w") as f:
-        for e in events:
+        for e in events + demo:
             f.write(json.dumps(e) + "\n")
     ok, reached, total, tr = core.validate_trace(mod, cfg, tp, cwd=d, timeout=1800)
     ctx.note_tlc("trace HostileFields", tr)
@@ -409,8 +413,12 @@ def run(tier, replay=None):
                     verdicts[v["l"]] = v
             except ValueError:
                 pass
-    if not ok or len(verdicts) != len(events):
-        raise ToolError(f"Trace_HostileFields: {len(verdicts)} verdicts for {len(events)} events ({tr.violated})")
+    if not ok or len(verdicts) != len(events) + 3:
+        raise ToolError(f"Trace_HostileFields: {len(verdicts)} verdicts for {len(events) + 3} events ({tr.violated})")
+    n = len(events)
+    if verdicts[n + 1]["total"] or verdicts[n + 2]["alloc"] or verdicts[n + 3]["pred"]:
+        raise ToolError("Trace_HostileFields: a synthetic bad observation was not rejected (the judge does not discriminate)")
+    ctx.add("binding_demonstrations_rejected", 3)
     classes = set()
     for li, ((c, dec, inlen), rr, e) in enumerate(zip(meta, results, events), start=1):
         v = verdicts[li]
